@@ -312,7 +312,13 @@ func c02Run(p framePlan) *common.Fail {
 		return nil
 	}
 	// ---- encode-first ----
+	// the expectation is a second value built from the same description: an encoder that rearranges the value it is
+	// handed (and writes the rearranged form) would otherwise be compared with its own doing
+	asBuilt := common.Show(common.ToLib(p.Frame))
 	enc := knxnet.AllocAndPack(lib)
+	if now := common.Show(lib); now != asBuilt {
+		return common.Failf("encode-changes-value", "%s/%s: encoding changed the value it was given: was %s\n now %s", p.Kind, p.CemiKind, asBuilt, now)
+	}
 	var got knxnet.Service
 	n, err := knxnet.Unpack(enc, &got)
 	if err != nil {
@@ -351,7 +357,11 @@ func c02Run(p framePlan) *common.Fail {
 	if _, err := knxnet.Unpack(ref, &v1); err == nil {
 		pk, ok := v1.(knxnet.ServicePackable)
 		if ok {
+			asDecoded := common.Show(v1)
 			re := knxnet.AllocAndPack(pk)
+			if now := common.Show(v1); now != asDecoded {
+				return common.Failf("relay-changes-value", "%s/%s: re-encoding changed the decoded value itself: decode(ref)=%s\n after AllocAndPack %s\n ref=%x re=%x", p.Kind, p.CemiKind, asDecoded, now, ref, re)
+			}
 			var v2 knxnet.Service
 			if _, err := knxnet.Unpack(re, &v2); err != nil {
 				return common.Failf("relay-reencoding-rejected", "%s/%s: decode(ref) ok, encode, decode failed: %v; ref=%x re=%x", p.Kind, p.CemiKind, err, ref, re)
